@@ -30,6 +30,15 @@ def run(ctx, rep):
                 v = e[3][flds.index("_endianness")]
                 be = "BigEndian" in E.show(v, fc.mir) or "BigEndian" in str(v)
         adder(rep, b)("R12a", "key serializer is configured big-endian", be, "XTypesSerializer._endianness is not BigEndian")
+        v1 = False
+        for bb, i, s in fc.aggregates("XTypesSerializer"):
+            flds = s.rv.agg.get("fields") or []
+            e = fc.rv_expr(s)
+            if "_encoding_version" in flds:
+                v = e[3][flds.index("_encoding_version")]
+                v1 = "EncodingVersion1" in E.show(v, fc.mir) or "EncodingVersion1" in str(v)
+        adder(rep, b)("R12a", "key stream uses the plain XCDR1 rules (8-byte maximum alignment, no DHEADER) that writer and reader both derive handles with", v1,
+                      "XTypesSerializer._encoding_version is not EncodingVersion1: 64-bit key members are aligned to 4 and collections get a DHEADER, which changes every padded key hash and MD5 input")
         adder(rep, b)("R12a", "key is serialized as a final structure without header", bool(fc.calls("serialize_fstruct_type")) and not fc.calls("write_header", "serialize_top_level"),
                       "does not call serialize_fstruct_type directly")
     kh = [b for b in fx.bodies.values() if b.item_name == "get_instance_handle_from_key_holder_data" and b.is_fn_like()]
@@ -53,7 +62,18 @@ def run(ctx, rep):
         for bb, t in md5:
             for op, a, c in RC.dominating_facts(fc, bb):
                 sel.append((op, a, c))
-        uses_len = any(RC.len_of(a) is not None or RC.len_of(c) is not None for op, a, c in sel)
-        add("R12b", "pad / MD5 choice depends on the key type's maximum serialized size", bool(sel) and not uses_len,
-            "the choice is made on the length of the serialized value (%s): a key whose type allows more than 16 bytes but whose value is short is zero-padded instead of hashed, "
-            "so other vendors compute a different key hash for the same instance" % "; ".join("%s %s %s" % (fc.show(a)[:60], op, fc.show(c)) for op, a, c in sel[:2]))
+        # what the choice is made on: the obligation is keyed by that basis, so that replacing one wrong basis by another
+        # (e.g. the vector's capacity) is a different, unlisted violation
+        basis = []
+        for op, a, c in sel:
+            for x in (a, c):
+                x0 = E.strip_casts(x)
+                if RC.len_of(x0) is not None:
+                    basis.append("the length of the serialized value")
+                elif x0[0] == "call":
+                    basis.append("%s(..)" % x0[1].split("::")[-1])
+        basis = sorted(set(basis))
+        type_level = bool(basis) and all(("max" in b2 and "size" in b2) for b2 in basis)
+        add("R12b", "pad / MD5 choice is made on %s" % (" and ".join(basis) or "nothing recognisable"), bool(sel) and type_level,
+            "DDS-XTypes 7.6.8 makes the choice on the key type's maximum serialized size; here (%s) a key whose type allows more than 16 bytes but whose value is short is zero-padded "
+            "instead of hashed (or the other way round), so other vendors compute a different key hash for the same instance" % "; ".join("%s %s %s" % (fc.show(a)[:60], op, fc.show(c)) for op, a, c in sel[:2]))
